@@ -88,6 +88,58 @@ def r2_packing(ctx):
                            % (k[0], panics._fmt(inc), k[0], panics._fmt(base), 32 - k[0]) if ok else
                            "bit packing may overlap or lose bits: shift %s, incoming %s, accumulated %s" % (k, inc, base), f, s["sp"]["at"])
                     break
+    # `bytes.iter().fold(init, |acc, &b| (acc << k) | b as u32)`: the same packing as a fold
+    for key in (TI_TE, PO_TE):
+        f = p.fn(key)
+        for bi, t in f.calls():
+            c = callee_of(t)
+            if not c or c.get("name") != "fold" or len(t["a"]) != 3 or f.is_cleanup(bi):
+                continue
+            sl = f.slice_of_operand(t["a"][2], at=(bi, f.INF))
+            for ck in sl["closures"]:
+                cf = p.funcs.get(ck)
+                if not cf:
+                    continue
+                for b2 in cf.blocks:
+                    for st in b2["s"]:
+                        if st["k"] != "assign" or st["rv"][0] != "bin" or st["rv"][1] != "BitOr":
+                            continue
+                        shl = None
+                        for o in (st["rv"][2], st["rv"][3]):
+                            l = op_local(o)
+                            if l is None:
+                                continue
+                            for x in cf.copy_chain(l):
+                                for d in cf.defs(x):
+                                    if d["kind"] == "assign" and d["rv"][0] == "bin" and d["rv"][1] in ("Shl", "ShlUnchecked"):
+                                        shl = d
+                        if not shl:
+                            continue
+                        k = an.eval_op(cf, shl["rv"][3], (shl["bb"], shl["si"]))
+                        init = an.eval_op(f, t["a"][1], (bi, f.INF - 1))
+                        # number of folded items: the iterated array's length; item type u8
+                        it_sl = f.slice_of_operand(t["a"][0], at=(bi, f.INF))
+                        nitems = None
+                        import re as _re
+                        for l in it_sl["locals"]:
+                            m = _re.match(r"^\[u8; (\d+)\]$", f.local_ty(l))
+                            if m:
+                                nitems = int(m.group(1))
+                        ok = k is not None and k[0] == k[1] and init is not None and nitems is not None
+                        acc = init[1] if ok else None
+                        if ok:
+                            for _ in range(nitems):
+                                if acc >= (1 << (32 - k[0])) or 255 >= (1 << k[0]):
+                                    ok = False
+                                    break
+                                acc = (acc << k[0]) | 255
+                        n += (nitems or 1)
+                        for step in range(1, (nitems or 1)):
+                            ctx.ob("R2", "disjoint-bits#fold-step%d" % step, ok, "step %d of the fold below" % step, cf, st["sp"]["at"], nontrivial=False)
+                        ctx.ob("R2", "disjoint-bits#fold", ok,
+                               "fold(init in %s, |acc, b| acc << %d | b) over %d bytes: every step keeps acc < 2^%d before the shift and b < 2^%d"
+                               % (panics._fmt(init), k[0], nitems, 32 - k[0], k[0]) if ok else
+                               "bit packing by fold may overlap or lose bits (shift %s, init %s, items %s)" % (k, init, nitems), cf, st["sp"]["at"])
     # the branch that changes the layout is itself packed (num_aux_segments is in buf)
     f = p.fn(TI_TE)
     sws = [(bi, b["t"]) for bi, b in enumerate(f.blocks) if b["t"]["k"] == "switch" and not b.get("cleanup")]
@@ -138,7 +190,16 @@ def r4_lengths(ctx):
     p = ctx.p
     for key, fld in ((TI_TE, "trace_meta"), (CTX_TE, "field_modulus_bytes")):
         f = p.fn(key)
-        pads = calls_to(f, PADDING, 1, "from_bytes_with_padding")
+        pads = f.calls_to(PADDING)
+        if not pads:
+            # `.map(E::from_bytes_with_padding)`: the function item handed to an iterator adapter
+            for bi, t in f.calls():
+                for a in t["a"]:
+                    c = op_const(a)
+                    if c and isinstance(c.get("fn"), dict) and c["fn"].get("def") == PADDING:
+                        pads.append((bi, t))
+        if not pads:
+            raise AnchorLost("%s: from_bytes_with_padding is neither called nor mapped over the chunks" % key)
         sl = ret_slice(f)
         # does len(field) flow into the result other than through the chunking itself?
         len_in = False
